@@ -38,12 +38,54 @@ def _summ(r, names, depth=0):
         return "T(" + _summ(r.v, names, depth + 1) + ")"
     if type(r).__name__ == "Box":
         return "Box(" + _summ(r.item, names, depth + 1) + ")"
+    if type(r).__name__ == "Pair":
+        return "Pair(" + _summ(r.p, names, depth + 1) + "," + _summ(r.q, names, depth + 1) + ")"
+    if isinstance(r, (set, frozenset)):
+        return "{" + ",".join(sorted(_summ(x, names, depth + 1) for x in r)) + "}"
     if isinstance(r, (int, str, bool, float)) or r is None:
         return repr(r)
     return "<" + type(r).__name__ + ">"
 
 
-def conf_measure(mod, trk, fname, k, calls):
+def census(r, names):
+    """Reference counts of the identity-carrying objects reachable from a result WHILE the result is held:
+    tracked T instances (labelled by their payload), the tracked arguments, native Box/Pair instances.  The walker's
+    own temporaries add the same constant in the interpreted and in the compiled run."""
+    out = []
+    seen = set()
+    stack = [r]
+    while stack:
+        o = stack.pop()
+        if id(o) in seen:
+            continue
+        seen.add(id(o))
+        tn = type(o).__name__
+        if id(o) in names:
+            out.append((names[id(o)], sys.getrefcount(o)))
+        elif tn == "T":
+            out.append(("T:" + (o.v if isinstance(o.v, str) else names.get(id(o.v), "?")), sys.getrefcount(o)))
+        elif tn in ("Box", "Pair"):
+            out.append((tn, sys.getrefcount(o)))
+        elif isinstance(o, int) and not isinstance(o, bool) and abs(o) > 2 ** 62:
+            out.append(("bigint", sys.getrefcount(o)))
+        if isinstance(o, (tuple, list)):
+            stack.extend(o)
+        elif isinstance(o, (set, frozenset)):
+            stack.extend(sorted(o, key=lambda e: (type(e).__name__, repr(e) if type(e).__name__ == "T" else "")))
+        elif isinstance(o, dict):
+            stack.extend(o.keys())
+            stack.extend(o.values())
+        elif tn == "T":
+            stack.append(o.v)
+        elif tn == "Box":
+            stack.extend([o.item, o.other])
+        elif tn == "Pair":
+            stack.extend([o.p, o.q])
+        del o
+    return sorted(out)
+
+
+def conf_measure(mod, trk, fname, k, calls, want_census=False):
     T = trk.T
     a, b = T("a"), T("b")
     xs = [T(0), T(1), T(2)]
@@ -66,6 +108,16 @@ def conf_measure(mod, trk, fname, k, calls):
         return "ok:" + _summ(r, names)
 
     shape0 = shape()
+    cen = None
+    if want_census:
+        try:
+            r = f(a, b, xs, d, bx, k)
+        except Exception as e:  # noqa: BLE001
+            cen = "exc:" + type(e).__name__
+            del e
+        else:
+            cen = census(r, names)
+            del r
     out0 = call()
     gc.collect()
     live0 = len(trk.LIVE)
@@ -79,7 +131,7 @@ def conf_measure(mod, trk, fname, k, calls):
     rc1 = [sys.getrefcount(o) for o in tracked]
     deltas = {n: y - x for n, x, y in zip(tnames, rc0, rc1) if x != y}
     return {"outcome": out0, "stable": stable, "deltas": deltas, "live_delta": live1 - live0,
-            "restored": shape() == shape0}
+            "restored": shape() == shape0, "census": cen}
 
 
 def run_conformance(job, res, progress):
@@ -94,8 +146,8 @@ def run_conformance(job, res, progress):
             if json.dumps([spec["name"], k]) in skip:
                 continue
             progress(spec["name"], k)
-            r_ref = conf_measure(ref, trk, spec["name"], k, job.get("calls", CALLS))
-            r_cmp = conf_measure(comp, trk, spec["name"], k, job.get("calls", CALLS))
+            r_ref = conf_measure(ref, trk, spec["name"], k, job.get("calls", CALLS), spec.get("census", False))
+            r_cmp = conf_measure(comp, trk, spec["name"], k, job.get("calls", CALLS), spec.get("census", False))
             res.append({"name": spec["name"], "k": k, "ref": r_ref, "compiled": r_cmp})
 
 
@@ -139,7 +191,7 @@ def run_undef(job, res, progress):
     assert comp.__file__.endswith(".so"), comp.__file__
     skip = {json.dumps(x) for x in job.get("skip", [])}
     for spec in job["specs"]:
-        for inp in undef_inputs(spec["mask"]):
+        for inp in [tuple(i) for i in spec["inputs"]] if "inputs" in spec else undef_inputs(spec["mask"]):
             if json.dumps([spec["name"], list(inp)]) in skip:
                 continue
             progress(spec["name"], list(inp))
@@ -156,13 +208,21 @@ def main() -> None:
         with open(job["progress"], "w") as pf:
             json.dump([name, arg], pf)
 
-    res: list = []
+    class Sink(list):
+        """Every finished measurement is appended to the out file at once (one JSON line), so that a later signal
+        exit loses only the measurement in flight."""
+
+        def append(self, rec):  # type: ignore[override]
+            with open(job["out"], "a") as f:
+                f.write(json.dumps(rec) + "\n")
+
+    res = Sink()
     if job["lane"] == "conformance":
         run_conformance(job, res, progress)
     else:
         run_undef(job, res, progress)
-    with open(job["out"], "w") as f:
-        json.dump(res, f)
+    with open(job["out"] + ".done", "w") as f:
+        f.write("done")
 
 
 if __name__ == "__main__":
